@@ -237,3 +237,5 @@ def replay_solve_iter(obligation=None, model=None, meta=None):
                         'observed': 'TDS.init: test_ok = %r, largest residual %.3e at <%s> (tolerance %g)' % (ss.TDS.test_ok, float(res[j]), ss.dae.xy_name[j], tol),
                         'native_cmd': 'contracts/fn_handover.py replay_solve_iter'}
     return {'confirmed': False, 'tried': n}
+
+replay_solve_iter.real_system = True       # drives the real program on stock inputs: a crash inside repository code is a confirmed failure
